@@ -287,6 +287,13 @@ int pthread_mutex_unlock(pthread_mutex_t *m)
   if(v.owner != tl_tid) vos::anomaly(20, tl_tid, mutex_name(m));
   else if(--v.count == 0) v.owner = -1;
   vos::log(30, {tl_tid, UNLOCK, mutex_name(m), v.count});
+  // a second schedule point right AFTER the release, for application threads: what the releasing thread does next without a
+  // lock (e.g. finish a constructor whose object is already registered) can be overtaken by the driver thread that was
+  // waiting for this mutex. (Not for the driver thread 1: the protocol model evaluates Run's loop condition together with
+  // the release of pauseMtx, see AcceptSync.driver_check.)
+  // Only for the driver's stepMtx / pauseMtx: the other mutexes (pools, send queues) guard plain data with no thread waiting
+  // to act on the release, and the monitors of those objects linearise at the operation's return.
+  if(v.owner < 0 && tl_tid != 1) { auto nm = mutex_name(m); if(nm == 1 || nm == 2) { Pending q; q.k = YIELD; park(q); } }
   return 0;
 }
 }
